@@ -9,19 +9,19 @@ TXT = {
  'C03': ('scope-chain laws and exec_frame invariant for every program + enumerated scope histories and random programs', 'EnvLaws / EvalFrame theorems; correspondence on stdout/diagnostic/status'),
  'C04': ('call/return/closure theorems (return_propagates, fresh activation, closure by reference) + return-placement skeletons and closure interleavings', 'evaluator meta-theory; correspondence'),
  'C05': ('Hoare rules for if/while/for with four exits, signals contained + control-flow skeleton enumeration', 'EvalHoare theorems sound for all assertions incl. output log'),
- 'C06': ('error absorption (suffix irrelevance, output prefix), error-line lemmas + fault-planting matrix with input probes after the fault', 'error monad in the model; the flag-polling mechanism of the Go code is covered by tables (entry poll, call poll) and the matrix'),
+ 'C06': ("error absorption (suffix irrelevance, output prefix), error-line lemmas, and the refinement theorem for the flag mechanism: Model/FlagEval.v transcribes the Go code's global-flag signalling arm by arm; frun_refines / after_flag_silent / fmain_refines prove the exception-style evaluator a sound abstraction of it + fault-planting matrix (single- and multi-line statements) with input probes after the fault, and the whole of stderr against the flag-level evaluator", 'theorems for every program; the flag-level evaluator is tied to the source by the regenerated per-arm mechanism trace (arm_trace_matches) and by comparing every diagnostic on stderr'),
  'C07': ('never_stuck from wf_state for every program + panic-banner predicate on all streams + known findings for unbounded recursion / cyclic print', 'model theorems full; Go-runtime panics are testing'),
  'C08': ('lexer/parser totality with explicit fuel, accept iff derivable (sound+complete), nothing runs on reject + fragment/token enumeration and prefix extension', 'front-end theorems; correspondence via godump'),
  'C09': ('items partition, line_spec, maximal munch, keyword_iff for all texts + every code point + fragment texts', 'LexerFacts theorems; exhaustive code-point sweep'),
  'C10': ('translit_spec, literal = correctly rounded decimal (Bdiv_correct_aux), script invariance + every code point, digit strings, halfway cases', 'Flocq-based theorems (stdlib real axioms)'),
- 'C11': ('array heap laws, pure append/remove, length preservation for every program + operation-sequence enumeration against a list model', 'HeapLaws theorems; correspondence'),
+ 'C11': ('array heap laws, pure append/remove, length preservation for every program, bodies of the array built-ins as regenerated traces + operation-sequence enumeration against a list model (aliasing through elements, self-containing arrays)', 'HeapLaws theorems; correspondence'),
  'C12': ('object cell laws (sorted unique keys), keys/values consistency independent of schedule + operation sequences', 'HeapLaws theorems; correspondence'),
  'C13': ('schedule independence of the model (every map iteration is sorted) + map-range table + repeated process runs with 8-key objects', 'theorem for the model; hash-seed independence of the real process is by repetition'),
  'C14': ('one-step order lemmas, short-circuit, truthy_spec + probe expressions over all node forms', 'EvalOrder theorems; correspondence on traces'),
- 'C15': ('print event shape, text_of laws, number round trip by construction + doubles/strings/containers against the binary and Go fmt', 'NumPrint theorems; NFC by oracle'),
+ 'C15': ('print event shape, text_of laws; shortest round-trip digits proved minimal, nearest, total (NumShortest/NumTotal with Flocq); NFC of the printed text modelled in Coq over tables regenerated from the linked x/text, proved canonically equivalent and idempotent + doubles/strings/containers against the binary, Go fmt and x/text; two recorded deviations of x/text from UAX #15 (known findings)', 'NumPrint/NumShortest/NumTotal/NfcFacts theorems; Python unicodedata as a second NFC reference'),
  'C16': ('values are type+content in the model; congruence + producer x context matrix between two runs of the implementation', 'model theorems; differential between producers'),
- 'C17': ('abs/sqrt/round exact specs, min/max specs, arity table + built-in x arity x kind matrix', 'Flocq specs; sin/cos/tan/pow via Go oracle'),
- 'C18': ('layout/script/synonym/parentheses invariance theorems + six transformation families on generated programs', 'LexerLayout etc.; differential between original and transformed runs'),
+ 'C17': ('abs/sqrt/round exact specs, min/max specs, arity table, bodies of the nine mathematical built-ins as regenerated traces + built-in x arity x kind matrix', 'Flocq specs; sin/cos/tan/pow via Go oracle'),
+ 'C18': ('layout/script/synonym/parentheses invariance theorems, line numbers only in diagnostics, alpha-renaming of variables and parameters for every injective renaming fixing built-in and function names (Rename.v) + six transformation families on generated programs', 'LexerLayout, InvFacts, Rename theorems; differential between original and transformed runs (function renaming by correspondence: function names are observable in printed values)'),
  'C19': ('exit-status classification theorems for Cli.main + real process runs over argv/extension/stdin configurations', 'CliFacts theorems; OS facts by runs'),
  'C20': ('repl = map respond (line independence) + session enumeration', 'CliFacts theorems; correspondence'),
 }
@@ -38,7 +38,7 @@ for pid in sorted(TXT):
             'replay_cmd_template': './check %s --replay {path}' % pid,
             'engine': 'coq-model+correspondence',
             'level_claimed': {'category': 'proof', 'text': text, 'design_ref': 'DESIGN.md section 9 (%s)' % pid},
-            'level_note': note + '; trusted base: Coq 8.16.1 kernel, Flocq, gotrans, ExtrOcamlBasic extraction + driver.ml, correspondence harness, oracles (libm, clock, schedule, NFC); see DESIGN.md section 8',
+            'level_note': note + '; trusted base: Coq 8.16.1 kernel, Flocq, gotrans, ExtrOcamlBasic extraction + driver.ml, correspondence harness, oracles (libm, clock, schedule); see DESIGN.md section 8',
             'technique': 'machine-checked proof in Coq about an executable Gallina model, tied to the Go code by source-regenerated table obligations and differential correspondence',
         })
     else:
